@@ -48,9 +48,11 @@ func (server *GripServer) Traversal(query *gripql.GraphQuery, queryServer gripql
 func (server *GripServer) ListGraphs(ctx context.Context, empty *gripql.Empty) (*gripql.ListGraphsResponse, error) {
 	//server.updateGraphMap()
 	graphs := []string{}
+	server.mu.RLock()
 	for g := range server.graphMap {
 		graphs = append(graphs, g)
 	}
+	server.mu.RUnlock()
 	return &gripql.ListGraphsResponse{Graphs: graphs}, nil
 }
 
@@ -449,7 +451,7 @@ func (server *GripServer) GetSchema(ctx context.Context, elem *gripql.GraphID) (
 	if !server.graphExists(elem.Graph) {
 		return nil, status.Errorf(codes.NotFound, fmt.Sprintf("graph %s: not found", elem.Graph))
 	}
-	schema, ok := server.schemas[elem.Graph]
+	schema, ok := server.getCachedSchema(elem.Graph)
 	if !ok {
 		if server.conf.Server.AutoBuildSchemas {
 			return nil, status.Errorf(codes.Unavailable, fmt.Sprintf("graph %s: schema not available; try again later", elem.Graph))
@@ -487,7 +489,7 @@ func (server *GripServer) AddSchema(ctx context.Context, req *gripql.Graph) (*gr
 	if err != nil {
 		return nil, fmt.Errorf("failed to store new schema: %v", err)
 	}
-	server.schemas[req.Graph] = req
+	server.setCachedSchema(req.Graph, req)
 	return &gripql.EditResult{Id: req.Graph}, nil
 }
 
